@@ -111,7 +111,7 @@ func runSolver(sd solverDef, script string, file string, timeout time.Duration, 
 // solveObligation: portfolio. unsat from any solver discharges; sat from any refutes.
 func solveObligation(fr *FuncResult, idx int, opts SolveOpts, id int) OblResult {
 	f := fr.Facts[idx]
-	script := buildScript(fr, idx, "(not "+f.Term+")", "")
+	script := buildScript(fr, idx, "(not "+stripIxAlt(f.Term)+")", "")
 	res := OblResult{Func: fr.Key, Name: f.Name, Kind: f.Kind, Tag: f.Tag, Info: f.Info, Status: "undecided", Bytes: len(script), Script: script}
 	file := filepath.Join(opts.WorkDir, fmt.Sprintf("q%d_%d.smt2", os.Getpid(), id))
 	defer func() {
@@ -165,6 +165,10 @@ func solveObligation(fr *FuncResult, idx int, opts SolveOpts, id int) OblResult 
 		return res
 	}
 	res.Output = solvers[0].name + ": " + firstLines(out, 3) + "\n"
+	if st == "error" && strings.Contains(out, "(error") {
+		res.Status = "error"
+		return res
+	}
 	type r struct {
 		st, out, name string
 		el            float64
@@ -216,4 +220,20 @@ func coverCheck(fr *FuncResult, opts SolveOpts, id int) (string, float64) {
 	defer os.Remove(file)
 	st, _, el := runSolver(solvers[0], script, file, 3*time.Second, opts.Seed)
 	return st, el
+}
+
+// stripIxAlt replaces every "(ixalt X)" by true: the re-indexed duplicate of a quantified formula is only
+// useful as a hypothesis.
+func stripIxAlt(t string) string {
+	for {
+		k := strings.Index(t, "(ixalt ")
+		if k < 0 {
+			return t
+		}
+		_, end := sexprAt(t, k)
+		if end < 0 {
+			return t
+		}
+		t = t[:k] + "true" + t[end:]
+	}
 }
